@@ -617,7 +617,9 @@ class IPPO(MultiAgentRLAlgorithm):
         dones = dones.squeeze()
         values = values.squeeze()
         next_state = vectorize_experiences_by_agent(next_state, dim=0)
-        next_done = vectorize_experiences_by_agent(next_done)
+        # NOTE: stacked agent-first like next_state, so that flattening gives the same
+        # (agent, env) column order as rewards, values and next_value
+        next_done = vectorize_experiences_by_agent(next_done, dim=0)
 
         # Bootstrapping returns using GAE advantage estimation
         dones = dones.long()
